@@ -7,6 +7,7 @@ import CstModel.Model.Query
 import CstModel.Model.SyntaxText
 import CstModel.Model.Conc
 import CstModel.Model.DataSlot
+import CstModel.Model.MemModel
 namespace Cst.Drv
 
 structure RState where
@@ -33,6 +34,7 @@ structure DState where
   views : Array (Nat × Red.View) := #[]
   conc : Option Conc.Sys := none
   concFrees : Nat := 0
+  mem : Option Mem.Sys := none
   /-- data slots by name, and the number of threads of the current execution -/
   data : List (String × DataSlot.Sys) := []
   dataThreads : Nat := 0
@@ -45,7 +47,7 @@ def DState.cfg (s : DState) : Cfg :=
 
 def DState.resetCase (s : DState) : DState :=
   { s with interners := #[], caches := #[], builder := none, failNext := false, cps := #[],
-           greens := #[], idMap := [], red := {}, views := #[], conc := none, concFrees := 0, data := [], dataThreads := 0 }
+           greens := #[], idMap := [], red := {}, views := #[], conc := none, concFrees := 0, data := [], dataThreads := 0, mem := none }
 
 /-- parse `<prefix><n>` -/
 def parseRef (pfx : Char) (s : String) : Option Nat :=
